@@ -261,3 +261,61 @@ Definition fl_to_string (x : fl) : option bstr :=
       | _ => None
       end
   end.
+
+(* ------------------------------------------------------------------ *)
+(* IEEE 754 results of + - * / on finite operands: the exact result rounded to the nearest
+   binary64, ties to even (the only rounding mode Go and JavaScript use).  The exact operations
+   above ([fl_add] ... [fl_div], [None] when the exact result is not a binary64) stay what the
+   built-in functions use; the arithmetic OPERATORS of the expression language use these.
+   [None] now only means: NaN or an infinity among the operands, or a result outside the
+   exponent range of [mk_fl] (overflow / the subnormal range).
+   Not verified against IEEE 754 in Coq; the correspondence runs of C01/C02/C04 compare the
+   extracted functions with the hardware arithmetic of Go (and of node for C04). *)
+
+(* the value with at most 53 significant bits nearest to M * 2^E, ties to even *)
+Definition round53 (M E : Z) : Z * Z :=
+  let a := Z.abs M in
+  let n := Z.log2 a + 1 in
+  if n <=? 53 then (M, E)
+  else
+    let shift := n - 53 in
+    let hi := a / 2 ^ shift in
+    let lo := a mod 2 ^ shift in
+    let half := 2 ^ (shift - 1) in
+    let hi' := match Z.compare lo half with
+               | Gt => hi + 1
+               | Lt => hi
+               | Eq => if Z.even hi then hi else hi + 1
+               end in
+    (if M <? 0 then - hi' else hi', E + shift).
+
+Definition mk_fl_r (M E : Z) : option fl := let '(m, e) := round53 M E in mk_fl m e.
+
+Definition fl_add_r (x y : fl) : option fl :=
+  match x, y with
+  | FFin m1 e1, FFin m2 e2 =>
+      let e := Z.min e1 e2 in
+      mk_fl_r (m1 * 2 ^ (e1 - e) + m2 * 2 ^ (e2 - e)) e
+  | _, _ => fl_add x y
+  end.
+
+Definition fl_sub_r (x y : fl) : option fl := fl_add_r x (fl_neg y).
+
+Definition fl_mul_r (x y : fl) : option fl :=
+  match x, y with
+  | FFin m1 e1, FFin m2 e2 => mk_fl_r (m1 * m2) (e1 + e2)
+  | _, _ => fl_mul x y
+  end.
+
+(* the quotient to 56 or more bits plus a sticky bit for the remainder, then rounded *)
+Definition fl_div_r (x y : fl) : option fl :=
+  match x, y with
+  | FFin m1 e1, FFin m2 e2 =>
+      let a := Z.abs m1 in
+      let c := Z.abs m2 in
+      let k := Z.max 0 (56 + Z.log2 c - Z.log2 a) in
+      let num := a * 2 ^ k in
+      let mp := 2 * (num / c) + (if num mod c =? 0 then 0 else 1) in
+      mk_fl_r (if xorb (m1 <? 0) (m2 <? 0) then - mp else mp) (e1 - e2 - k - 1)
+  | _, _ => fl_div x y
+  end.
